@@ -202,6 +202,7 @@ def units(tier):
              space=_space(tier).describe() + " as 0/1 float64"),
         Unit("random", check, strategy=lambda: cases(10), examples=(3000, 80000), shards=(8, 16)),
         Unit("random-n<=14", check, strategy=lambda: cases(14), examples=(600, 20000), shards=(8, 16)),
+        Unit("random-n<=30", check, strategy=lambda: cases(30), examples=(40, 800), shards=(8, 16)),
     ]
     if tier == "thorough":
         us.append(Unit("sampled-digraphs-n5", check, count=lambda t: _D5.total // 8, cases=_d5, shards=(16, 64),
